@@ -13,3 +13,5 @@ import SynRBLModel.Properties.C15
 import SynRBLModel.Properties.C16
 import SynRBLModel.Properties.C17
 import SynRBLModel.Properties.C19
+import SynRBLModel.Properties.C02
+import SynRBLModel.Properties.C14
